@@ -586,6 +586,11 @@ type c10Combo struct {
 	// "variadic": the method's last additional argument is a []int and the hook's last parameter is ...int (fits only
 	// if the call spreads the slice: must be rejected, or accepted with code that compiles)
 	ExtraVariant string
+	// HConcreteErr: the hook returns *tr.E, a concrete type that implements error, instead of error (must be refused)
+	HConcreteErr bool
+	// SharedWithFit: the unfit method shares its hook with a method that sorts first and that the hook does fit (the
+	// fit is a property of the pair, the file must still be refused)
+	SharedWithFit bool
 }
 
 func (c c10Combo) legal() bool {
@@ -598,7 +603,7 @@ func (c c10Combo) legal() bool {
 	if c.ExtraPtrMismatch {
 		return false // additional arguments are passed as they are: int is not *int
 	}
-	if c.ExtraVariant == "hook-narrower" || c.ExtraVariant == "variadic" {
+	if c.ExtraVariant == "hook-narrower" || c.ExtraVariant == "variadic" || c.HConcreteErr {
 		return false
 	}
 	return true
@@ -658,6 +663,7 @@ func c10Method(c c10Combo, idx int, uf *pg.UserFuncs) pg.Method {
 	}
 	for _, pos := range []string{"preprocess", "postprocess"} {
 		if c.Pos == "both" || strings.HasPrefix(pos, c.Pos) {
+			uf.NextConcreteErr = c.HConcreteErr
 			name := uf.Hook(pos[:3], "HD", c.HDstPtr, "HS", c.HSrcPtr, hx, c.HErr)
 			m.Notes = append(m.Notes, pg.Notation{Kind: pos, Args: []string{name}})
 		}
@@ -694,6 +700,16 @@ func c10All() []c10Combo {
 					c := c10Combo{HDstPtr: h&1 != 0, HSrcPtr: h&2 != 0, HErr: h&4 != 0, HExtras: h&8 != 0, Pos: pos,
 						Arg: m&1 != 0, Recv: m&2 != 0, SrcPtr: m&4 != 0, DstPtr: m&8 != 0, RetErr: m&16 != 0, Extras: ex}
 					out = append(out, c)
+					if c.HErr && c.RetErr && !c.HExtras && ex == 0 {
+						c2 := c
+						c2.HConcreteErr = true
+						out = append(out, c2)
+					}
+					if !c.legal() && (c.HErr && !c.RetErr && !(c.HExtras && ex == 0) || c.HExtras && ex == 0 && (!c.HErr || c.RetErr)) {
+						c2 := c
+						c2.SharedWithFit = true
+						out = append(out, c2)
+					}
 					if c.HExtras && ex > 0 && (!c.HErr || c.RetErr) {
 						c.ExtraPtrMismatch = true
 						out = append(out, c)
@@ -795,7 +811,24 @@ func c10Enumeration(env *hx.Env, rec *hx.Recorder, t *testing.T, judge func(*pg.
 		}
 		q := &pg.Prog{ExtraFiles: hx.Files{{Name: "home/hooktypes.go", Data: c10Types}}}
 		uf1 := &pg.UserFuncs{}
-		q.Ifaces = []pg.Iface{{Name: "Convergen", Methods: []pg.Method{c10Method(c, i, uf1)}}}
+		unfit := c10Method(c, i, uf1)
+		q.Ifaces = []pg.Iface{{Name: "Convergen", Methods: []pg.Method{unfit}}}
+		if c.SharedWithFit {
+			// the same hooks on a method they fit: an error result added, or the additional argument the hook wants
+			fit := c
+			fit.SharedWithFit = false
+			if fit.HErr && !fit.RetErr {
+				fit.RetErr = true
+			}
+			if fit.HExtras && fit.Extras == 0 {
+				fit.Extras = 1
+			}
+			nb := c10Method(fit, i, &pg.UserFuncs{})
+			nb.Name = "AaaFits" + nb.Name
+			nb.Notes = unfit.Notes
+			q.Ifaces[0].Methods = []pg.Method{nb, unfit}
+			rec.Class("enumeration:unfit-hook-shared-with-a-method-it-fits")
+		}
 		q.HomeFuncs = uf1.String()
 		q.FixImports()
 		o, err := pg.RunModule(env, q.Files())
@@ -817,6 +850,9 @@ func c10Enumeration(env *hx.Env, rec *hx.Recorder, t *testing.T, judge func(*pg.
 		}
 		if exit == 0 || crashed {
 			why := "error-returning hook on a method without error result"
+			if c.HConcreteErr {
+				why = "hook that returns a concrete error type instead of error"
+			}
 			if c.ExtraVariant == "hook-narrower" {
 				why = "hook whose additional parameters (int, *LInner) cannot take the method's interface{} arguments"
 			}
